@@ -338,6 +338,19 @@ def run(chk):
         from_groove_splines(chk, rng)
     if not chk.failures:
         from_groove_overfilled(chk, rng)
+    # Config.PROFILE_CONTOUR_REFINEMENT set at run time: more vertices ON the outline, never another outline - sizes, validity, symmetry and areas stay
+    from pyroll.core import Config
+    for refinement in (50, 137) if not chk.failures else ():
+        Config.PROFILE_CONTOUR_REFINEMENT = refinement
+        chk.context = (f"Config.PROFILE_CONTOUR_REFINEMENT = {refinement} set at run time", {'PROFILE_CONTOUR_REFINEMENT': refinement})
+        try:
+            before = len(chk.failures)
+            valid_cases(chk, rng, 60 if not chk.thorough else 400)
+            if len(chk.failures) == before:
+                from_groove_cases(chk, rng)
+        finally:
+            chk.context = None
+            del Config.PROFILE_CONTOUR_REFINEMENT
     kernel_law_k4(chk, rng, 100 if not chk.thorough else 2000)
     chk.cov['distinct_nontrivial'] += chk.cov['evaluations']
     chk.sample({'factory': 'hexagon', 'args': {'side': 1.0, 'corner_radius': 0.2}})
